@@ -44,6 +44,64 @@ def _work(job):
     return ground.run(name)
 
 
+def _child(job, conn):
+    try:
+        conn.send(_work(job))
+    except BaseException as e:       # noqa: B902
+        import traceback
+        conn.send(dict(qual=job[1], obligations=[], infos=[], error='%s: %s\n%s' % (type(e).__name__, e, traceback.format_exc())))
+    finally:
+        conn.close()
+
+
+def run_jobs(jobs, nproc, budget_s):
+    """one process per job, at most nproc at a time, each under a wall-clock budget: a solver that
+    runs away (or a crashed worker) costs that job only - it is reported as undecided / fault,
+    never waited for forever"""
+    ctx = mp.get_context('fork')
+    results = [None] * len(jobs)
+    pending = list(range(len(jobs)))
+    running = {}
+    while pending or running:
+        while pending and len(running) < nproc:
+            k = pending.pop(0)
+            parent, child = ctx.Pipe(duplex=False)
+            p = ctx.Process(target=_child, args=(jobs[k], child))
+            p.start()
+            child.close()
+            running[k] = (p, parent, time.time())
+        done = []
+        for k, (p, conn, t0) in running.items():
+            if conn.poll(0.02):
+                try:
+                    results[k] = conn.recv()
+                except EOFError:
+                    results[k] = dict(qual=jobs[k][1], obligations=[], infos=[], error='worker died without a result (exit code %s)' % p.exitcode)
+                p.join(5)
+                done.append(k)
+            elif not p.is_alive():
+                p.join()
+                if conn.poll(0.2):
+                    try:
+                        results[k] = conn.recv()
+                    except EOFError:
+                        results[k] = None
+                if results[k] is None:
+                    results[k] = dict(qual=jobs[k][1], obligations=[], infos=[], error='worker died without a result (exit code %s)' % p.exitcode)
+                done.append(k)
+            elif time.time() - t0 > budget_s:
+                p.terminate()
+                p.join(5)
+                if p.is_alive():
+                    p.kill()
+                results[k] = dict(qual=jobs[k][1], obligations=[], infos=[], error=None, timed_out=True,
+                                  undecided=['%s: worker exceeded its %d s budget (solver ran away); its obligations are undecided' % (jobs[k][1], budget_s)])
+                done.append(k)
+        for k in done:
+            running.pop(k)
+    return results
+
+
 def known_findings():
     p = os.path.join(VERIF, 'known_findings.json')
     if not os.path.exists(p):
@@ -112,15 +170,15 @@ def main(argv=None):
     if not jobs:
         print('UNDECIDED property=%s no function under contract serves this property' % pid)
         return 2
-    with mp.get_context('fork').Pool(min(args.jobs, len(jobs))) as pool:
-        results = pool.map(_work, jobs, chunksize=1)
-        # second wave: big functions hand back their pending decision prefixes; spread them
-        wave = []
-        for job, r in zip(jobs, results):
-            for vi, prefix in r.get('pending', []) if job[0] == 'fn' else []:
-                wave.append(('fn', job[1], job[2], job[3], vi, [prefix]))
-        if wave:
-            results += pool.map(_work, wave, chunksize=1)
+    budget = 300 if tier == 'quick' else 1500
+    results = run_jobs(jobs, args.jobs, budget)
+    # second wave: big functions hand back their pending decision prefixes; spread them
+    wave = []
+    for job, r in zip(jobs, results):
+        for vi, prefix in (r.get('pending', []) if job[0] == 'fn' else []):
+            wave.append(('fn', job[1], job[2], job[3], vi, [prefix]))
+    if wave:
+        results += run_jobs(wave, args.jobs, budget)
 
     obligations, faults, undecided, functions, assumed = [], [], [], [], set()
     merged = {}
@@ -130,6 +188,9 @@ def main(argv=None):
         m['infos'] += r.get('infos', [])
         m['error'] = m['error'] or r.get('error')
         m['wall_s'] = max(m['wall_s'], r.get('wall_s', 0))
+    for r in results:
+        for u in r.get('undecided', []):
+            undecided.append(u)
     for r in merged.values():
         if r.get('error'):
             faults.append('%s: %s' % (r['qual'], r['error'].splitlines()[0]))
